@@ -20,7 +20,7 @@ func init() {
 			"(6) Iterator.isVisible ⇔ snapshot == 0 ∨ seq ≤ snapshot (table), Next/Seek/SeekToFirst each contain the skip-invisible loop and Valid tests visibility; MemTable.Put/Delete keep nextSeqNum under a > guard. " +
 			"Added after blind round 4: MemTable.Get's decision table over both arms (no entry → (nil,false), deletion marker → (nil,true), value → (value,true)).",
 		NotDecided: "what concurrent readers observe under all interleavings (needs schedules); memory-model arguments beyond 'links are atomic.Pointer and published after initialisation'.",
-		Rules:      []func(*Ctx, *Reporter){ruleMemComparator, ruleMemFind, ruleMemInsert, ruleMemImmutableFields, ruleMemSingleWriter, ruleMemImmutable, ruleMemVisibility, ruleMemTableGetTable},
+		Rules:      []func(*Ctx, *Reporter){ruleMemComparator, ruleMemFind, ruleMemInsert, ruleMemImmutableFields, ruleMemSingleWriter, ruleMemImmutable, ruleMemVisibility, ruleMemTableGetTable, rulePoolWritesUnderPoolLock, ruleComparatorNoSubtraction},
 	})
 }
 
